@@ -56,7 +56,7 @@ def _r1(model, res):
     n = 0
     for name in ('BASE', 'ROMAN', 'FACTDOUBLE', 'ARABIC', 'DECIMAL', 'DEC2HEX', 'HEX2DEC', 'FACT'):
         m, f = model.registered(name)
-        consts = guards.module_consts(m)
+        consts = guards.module_consts(m, model)
         for node in ast.walk(f):
             if isinstance(node, ast.While):
                 n += 1
@@ -110,7 +110,7 @@ def _r2(model, res, singles):
     n = 0
     for name, doms in sorted(DOMAINS.items()):
         m, f = model.registered(name)
-        consts = guards.module_consts(m)
+        consts = guards.module_consts(m, model)
         ps = sa.params(f)
         for (role, idx), chk, desc in doms:
             if role == 'param':
@@ -138,11 +138,14 @@ def _r2(model, res, singles):
                         for st, val in asg:
                             shim = ast.Return(value=val)
                             ast.copy_location(shim, st)
-                            rets.append((st, shim))
+                            rets.append((st, shim, r))
                         continue
-                rets.append((r, r))
-            for at, r in rets:
+                rets.append((r, r, None))
+            for at, r, also in rets:
                 facts = guards.facts_at(m, f, at, no_kill=(var,))
+                if also is not None:
+                    # the path runs through the assignment and then reaches the return: the guards of both hold
+                    facts = facts + guards.facts_at(m, f, also, no_kill=(var,))
                 if _is_error_return(model, m, f, r, facts):
                     continue
                 # a return inside an exception handler for a failed parse is an error exit as well
@@ -286,8 +289,22 @@ def _r4(model, res):
                 amap = dict((kk.value, ast.literal_eval(v)) for kk, v in zip(node.keys, node.values))
             except Exception:
                 pass
+    if amap is None:
+        # the map written some other way (dict(zip(...)), a comprehension): evaluate the expression
+        from ..absint import DictV
+        for node in ast.walk(f2):
+            if isinstance(node, ast.Assign) and isinstance(node.value, (ast.Call, ast.DictComp)):
+                try:
+                    v = Interp(model).const_expr(m2, node.value)
+                except Exception:
+                    continue
+                if isinstance(v, DictV) and v.pairs and all(isinstance(a, Const) and isinstance(a.value, str) and isinstance(b, Const)
+                                                            and isinstance(b.value, int) for a, b in v.pairs):
+                    amap = dict((a.value, b.value) for a, b in v.pairs)
     if pairs is None or amap is None:
-        raise AnalysisError('ROMAN numeral pairs or ARABIC numeral map not found (anchor vanished)')
+        res.ob('R4', 'ROMAN/ARABIC', 'numeral tables', True, 'undecided: tables not in a recognised shape')
+        res.notes.append('C17.R4: ROMAN numeral pairs or ARABIC numeral map not in a recognised shape; table agreement undecided')
+        return
     want = {'M': 1000, 'D': 500, 'C': 100, 'L': 50, 'X': 10, 'V': 5, 'I': 1}
     rom = dict((g, v) for v, g in pairs)
     ok = rom == want and [v for v, g in pairs] == sorted(want.values(), reverse=True)
@@ -314,32 +331,43 @@ def _r4(model, res):
 
 def _r5_r6(model, res):
     m, f = model.registered('BASE')
-    joins = [n for n in walk_no_defs(f) if isinstance(n, ast.Call) and isinstance(n.func, ast.Attribute) and n.func.attr == 'join']
     n_ok = 0
+
+    def alphabet_of(base):
+        r = model.resolve_attr_chain(m, base) if isinstance(base, (ast.Name, ast.Attribute)) else None
+        if isinstance(base, ast.Constant) and isinstance(base.value, str):
+            return base.value
+        if r and r[0] == 'const' and isinstance(r[3], ast.Constant) and isinstance(r[3].value, str):
+            return r[3].value
+        return None
+    # every lookup of a digit in a text constant, wherever the digits are assembled (join over a comprehension, concatenation in a loop)
+    seen = set()
+    for node in walk_no_defs(f):
+        if isinstance(node, ast.Subscript) and not isinstance(node.slice, ast.Slice):
+            val = alphabet_of(node.value)
+            if val is None or len(val) < 2:
+                continue
+            seen.add(id(node))
+            ok = len(val) >= 36 and val[:36].upper() == '0123456789ABCDEFGHIJKLMNOPQRSTUVWXYZ'
+            n_ok += 1
+            res.ob('R5', 'BASE', 'digit rendering %s' % src(node), ok, 'alphabet %r' % val)
+            if not ok:
+                res.violation('R5', 'function:BASE:digit-rendering', m.where(node),
+                              'BASE renders a digit with %s over the alphabet %r: digits above 9 need one letter each (A=10 .. Z=35) in order, '
+                              'otherwise DECIMAL cannot read the text back' % (src(node), val), func=f.name)
+    joins = [n for n in walk_no_defs(f) if isinstance(n, ast.Call) and isinstance(n.func, ast.Attribute) and n.func.attr == 'join']
     for j in joins:
         if not j.args or not isinstance(j.args[0], (ast.GeneratorExp, ast.ListComp)):
             continue
         elt = j.args[0].elt
-        ok = False
-        why = src(elt)
-        if isinstance(elt, ast.Subscript):
-            base = elt.value
-            r = model.resolve_attr_chain(m, base) if isinstance(base, (ast.Name, ast.Attribute)) else None
-            val = None
-            if isinstance(base, ast.Constant) and isinstance(base.value, str):
-                val = base.value
-            elif r and r[0] == 'const' and isinstance(r[3], ast.Constant) and isinstance(r[3].value, str):
-                val = r[3].value
-            if val is not None:
-                ok = len(val) >= 36 and val[:36].upper() == '0123456789ABCDEFGHIJKLMNOPQRSTUVWXYZ'
-                why = 'alphabet %r' % val
+        if id(elt) in seen:
+            continue
         n_ok += 1
-        res.ob('R5', 'BASE', 'digit rendering %s' % src(elt), ok, why)
-        if not ok:
-            res.violation('R5', 'function:BASE:digit-rendering', m.where(j),
-                          'BASE renders a digit with %s: digits above 9 need one letter each (A=10 .. Z=35), otherwise 255 in base 16 is "1515" '
-                          'and DECIMAL cannot read it back' % src(elt), func=f.name)
-    res.floor('digit rendering sites in BASE', n_ok, 1)
+        res.ob('R5', 'BASE', 'digit rendering %s' % src(elt), False, src(elt))
+        res.violation('R5', 'function:BASE:digit-rendering', m.where(j),
+                      'BASE renders a digit with %s: digits above 9 need one letter each (A=10 .. Z=35), otherwise 255 in base 16 is "1515" '
+                      'and DECIMAL cannot read it back' % src(elt), func=f.name)
+    res.soft_floor('digit rendering sites in BASE', n_ok, 1)
     FLOAT_CALLS = ('math.log', 'math.log10', 'math.log2', 'math.pow', 'math.sqrt', 'math.exp', 'float', 'math.fmod')
     for name in ('BASE', 'DECIMAL', 'DEC2HEX', 'HEX2DEC'):
         mm, ff = model.registered(name)
